@@ -109,3 +109,71 @@ Proof.
 Qed.
 
 End Main.
+
+(* ---------- histories without a graceful restart never write a snapshot, so they are guarded ---------- *)
+Section NoSnapshot.
+Variable W : N.
+Variable member : list bkey -> bkey -> bool.
+
+Lemma ensure_snapshot s : snapshot (ensure W s) = snapshot s.
+Proof. unfold ensure. destruct (running s); auto. destruct (init_rf W s). reflexivity. Qed.
+
+Lemma cache_load_snapshot s ws : snapshot (cache_load s ws) = snapshot s.
+Proof.
+  unfold cache_load. destruct (running s); auto. destruct (w_from w =? ws); auto.
+  destruct (lookup ws (cache s)); auto. destruct (lookup ws (persisted s)); auto.
+Qed.
+
+Lemma cache_after_snapshot s a b : snapshot (cache_after W s a b) = snapshot s.
+Proof.
+  unfold cache_after.
+  generalize (wstarts W (aligned W a) (S (N.to_nat ((aligned W b - aligned W a) / W)))).
+  intros l. revert s. induction l as [| x l IH]; intros s; simpl; auto.
+  rewrite IH. apply cache_load_snapshot.
+Qed.
+
+Lemma step_snapshot s o : o <> Restart true -> snapshot (fst (step W member s o)) = snapshot s.
+Proof.
+  intros Hne. destruct o as [b | | g | ws | flt from to chunk limit tok]; simpl.
+  - unfold do_store. destruct (running (ensure W s)) eqn:Er; simpl; try apply ensure_snapshot.
+    destruct (rf_insert _ _ _ _ _) as [[[p' w'] nx'] |]; simpl; apply ensure_snapshot.
+  - unfold do_revert. destruct (chain s); auto.
+    destruct (running (ensure W s)) eqn:Er; simpl; try apply ensure_snapshot.
+    destruct (next =? w_from w).
+    + destruct (lookup _ _); simpl; try apply ensure_snapshot.
+      destruct (w_clear _ _ _); simpl; apply ensure_snapshot.
+    + destruct (w_clear _ _ _); simpl; apply ensure_snapshot.
+  - destruct g; [congruence | reflexivity].
+  - reflexivity.
+  - unfold do_query. destruct (chain s); auto. destruct (_ <? _); auto.
+    destruct (running (ensure W s)) eqn:Er; simpl; try apply ensure_snapshot.
+    destruct (scanq _ _ _ _ _ _ _ _ _) as [r stop]. simpl.
+    rewrite cache_after_snapshot. apply ensure_snapshot.
+Qed.
+
+Lemma disk_ok_no_snapshot s : snapshot s = None -> disk_ok_b W s = true.
+Proof. intros H. unfold disk_ok_b. rewrite H. destruct (chain s); reflexivity. Qed.
+
+Lemma guarded_no_snapshot : forall ops s,
+  snapshot s = None -> (forall o, In o ops -> o <> Restart true) -> guarded W member s ops = true.
+Proof.
+  induction ops as [| o ops IH]; intros s Hs Hall; simpl; auto.
+  apply andb_true_iff. split.
+  - destruct o; auto. destruct graceful; auto. destruct (running s); auto.
+    apply disk_ok_no_snapshot. auto.
+  - apply IH.
+    + rewrite step_snapshot; auto. apply Hall. simpl. auto.
+    + intros o' Ho'. apply Hall. simpl. auto.
+Qed.
+
+Lemma guarded_without_graceful ops :
+  (forall o, In o ops -> o <> Restart true) -> guarded W member init_state ops = true.
+Proof. apply guarded_no_snapshot. reflexivity. Qed.
+
+End NoSnapshot.
+
+Lemma reachable_keys W (Wpos : 0 < W) member ops :
+  guarded W member init_state ops = true ->
+  let s := ensure W (run W member init_state ops) in
+  forall k pw, lookup k (persisted s) = Some pw -> k mod W = 0 /\ k + W <= lenN (chain s).
+Proof. intros Hg s. destruct (reachable_rinv W Wpos member ops Hg) as [_ [Hk _]]. exact Hk. Qed.
